@@ -7,7 +7,7 @@ from . import numgrid as G
 from . import c09
 
 PROP = "C10"
-MODULES = ["RuschmProofs.C10", "RuschmProofs.C10More"]
+MODULES = ["RuschmProofs.C10", "RuschmProofs.C10More", "RuschmProofs.C10Eqv"]
 CMP = ["=", "<", ">", "<=", ">="]
 
 
